@@ -508,6 +508,8 @@ class Interp:
                 for x in s.orelse:
                     self.ex(x, fr)
             return
+        if isinstance(it, SStr):
+            it = self.b.chars_of(it)
         if not isinstance(it, SList):
             raise Unsupported(f"for over {type(it).__name__} at line {s.lineno}")
         self.cut_loop(s, fr, it)
@@ -878,6 +880,13 @@ class Interp:
 
     def ev_BoolOp(self, e, fr):
         is_and = isinstance(e.op, ast.And)
+        if self.cx.ghost.get("generic"):
+            # generic element of a comprehension: no path split; operands are evaluated as a pure boolean term
+            ts = []
+            for x in e.values:
+                t = truth(self.cx, self.ev(x, fr))
+                ts.append(z3.BoolVal(t) if isinstance(t, bool) else t)
+            return SBool(z3.And(*ts) if is_and else z3.Or(*ts))
         v = None
         for k, x in enumerate(e.values):
             v = self.ev(x, fr)
